@@ -19,9 +19,10 @@ func paHex() string {
 }
 
 type g struct {
-	w   io.Writer
-	r   *hx.Rng
-	seq int
+	w    io.Writer
+	r    *hx.Rng
+	seq  int
+	dups bool
 }
 
 func (g *g) reset(ih, maxp uint64) {
@@ -32,6 +33,10 @@ func (g *g) reset(ih, maxp uint64) {
 func (g *g) produce(empty bool) {
 	if empty {
 		fmt.Fprintln(g.w, "produce txs=-")
+		return
+	}
+	if g.dups && g.r.Chance(40) { // a block repeating an earlier block's transaction list
+		fmt.Fprintln(g.w, "produce txs=73616d65,74786c697374")
 		return
 	}
 	g.seq++
@@ -111,6 +116,7 @@ func GenC06(r *hx.Rng, tier string, w io.Writer) {
 		if r.Chance(8) {
 			ih = 2 + uint64(r.Intn(4))
 		}
+		x.dups = r.Chance(25)
 		x.reset(ih, 0)
 		steps := 4 + r.Intn(14)
 		for j := 0; j < steps; j++ {
@@ -152,6 +158,22 @@ func GenC07(r *hx.Rng, tier string, w io.Writer) {
 	fmt.Fprintln(w, "incl")
 	x.sub("subh", "-")
 	x.sub("subd", "-")
+	fmt.Fprintln(w, "incl")
+	// two blocks with the same transaction list: the data mark is keyed by the commitment
+	x.reset(1, 0)
+	fmt.Fprintln(w, "produce txs=73616d65")
+	x.produce(false)
+	fmt.Fprintln(w, "produce txs=73616d65")
+	x.sub("subh", "-")
+	x.sub("subd", "ok:1")
+	fmt.Fprintln(w, "incl")
+	x.sub("subd", "-")
+	fmt.Fprintln(w, "incl")
+	x.reset(1, 0)
+	fmt.Fprintln(w, "produce txs=73616d65")
+	fmt.Fprintln(w, "produce txs=73616d65")
+	x.sub("subh", "-")
+	x.sub("subd", "ok:1|canceled")
 	fmt.Fprintln(w, "incl")
 	// the same with a clean restart: marks are reloaded
 	x.reset(1, 0)
